@@ -118,3 +118,6 @@ pub(crate) fn destroy_stack(t: usize) {
 pub(crate) fn depth(st: &LocalSpanStack) -> usize {
     st.span_lines.len()
 }
+pub(crate) fn top_records(st: &LocalSpanStack) -> Option<&crate::util::RawSpans> {
+    st.span_lines.last().map(crate::local::local_span_line::verif_harness::line_records)
+}
